@@ -125,13 +125,14 @@ class Oracle(object):
         self.ctx = ctx if ctx is not None else {}
         self.n_exp = 0
         self.steps = 0
+        self.max_steps = None
         # zero_draws: every uniform draw first branches on the probability-zero but legal outcome
         # "exactly 0.0" (random.random() returns values in [0,1)); used where a property says *never*
         self.zero_draws = zero_draws
 
     def _tick(self):
         self.steps += 1
-        if self.steps > MAX_STEPS:
+        if self.steps > (self.max_steps or MAX_STEPS):
             raise Diverged()
 
     # ---- core -----------------------------------------------------------------------
@@ -354,7 +355,7 @@ def seams(sim, orc, heap=True):
 
 
 class Run(object):
-    __slots__ = ("trace", "marks", "log", "out", "exc", "cut", "ctx", "prefix")
+    __slots__ = ("trace", "marks", "log", "out", "exc", "cut", "ctx", "prefix", "short")
 
     def chosen(self):
         return tuple(t[2] for t in self.trace)
@@ -366,9 +367,12 @@ class Run(object):
         return p
 
 
-def run_once(sim, fn, prefix, exp=None, close_loops=True, heap=True, zero_draws=False):
-    """One execution of the real code under the oracle.  fn(orc) -> output."""
+def run_once(sim, fn, prefix, exp=None, close_loops=True, heap=True, zero_draws=False, max_steps=None, allow_short=False):
+    """One execution of the real code under the oracle.  fn(orc) -> output.
+    allow_short: an execution that ends before the scheduled prefix is used up is returned (r.short = number of
+    choices consumed) instead of being a harness error - for drivers whose question is exactly that."""
     orc = Oracle(prefix, exp=exp, close_loops=close_loops, zero_draws=zero_draws)
+    orc.max_steps = max_steps
     r = Run()
     r.out = None; r.exc = None; r.cut = None
     with seams(sim, orc, heap=heap):
@@ -384,9 +388,12 @@ def run_once(sim, fn, prefix, exp=None, close_loops=True, heap=True, zero_draws=
             raise HarnessError("recursion limit")
         except Exception as e:      # an exception of the library is an observable outcome
             r.exc = e
+    r.short = None
     if len(orc.trace) < len(prefix):
-        raise HarnessError("replay divergence: execution consumed %d of %d prefix choices"
-                           % (len(orc.trace), len(prefix)))
+        if not allow_short:
+            raise HarnessError("replay divergence: execution consumed %d of %d prefix choices"
+                               % (len(orc.trace), len(prefix)))
+        r.short = len(orc.trace)
     r.trace = orc.trace; r.marks = orc.marks; r.log = orc.log; r.ctx = orc.ctx
     r.prefix = tuple(prefix)
     return r
